@@ -123,6 +123,14 @@ class SimConnection(sqlite3.Connection):
         _PLAN.commits_seen += 1
         return super().commit()
 
+    def __exit__(self, exc_type, exc, tb):
+        # `with connection:` commits from C without going through self.commit();
+        # make that commit a countable (and failable) call as well.
+        if exc_type is None:
+            _gate("commit", "COMMIT (context manager)")
+            _PLAN.commits_seen += 1
+        return super().__exit__(exc_type, exc, tb)
+
 
 def _progress():
     plan = _PLAN
